@@ -447,8 +447,65 @@ def run_defeat_prims(virtual, w, unchecked):
     return res
 
 
+def ob_preemptive_marker(w=2):
+    """README "Preemptive defeat functions": a defeat function that contains a preempt block *anywhere* in it (even if unreachable) is preemptive,
+    and (checked builds) every return of a preemptive defeat function is protected.  Structural contract on the real parser + Block.preemptive +
+    gen_func: for every nesting of block constructs (depth <= 3) around one `preempt {}` -- and for the same nestings without it --
+    body.preemptive <=> a preempt block occurs, and the function's code jumps to nonlocal_preempt before returning <=> preemptive and checked."""
+    import itertools, time
+    from hidv.oblig import Result, DISCHARGED, FAILED
+    from hidv.sphinx import svm
+    from hidc.lexer import SourceCode
+    from hidc.parser import parse
+    from hidc.ast import Environment
+    from hidc.lexer.tokens import Ident
+    t0 = time.time()
+    wrappers = {
+        'block': '{ %s }', 'if': 'if (x > 0) { %s }', 'else': 'if (x > 0) { x = 1; } else { %s }', 'while': 'while (x > 0) { x -= 1; %s }',
+        'for': 'for (int i@ = 0; i@ < x; i@ += 1) { %s }', 'for-bare': 'for (;;) { %s break; }', 'preempt-outer': 'preempt { %s }',
+    }
+    bad = []; n = 0
+    for depth in (0, 1, 2, 3):
+        for nest in itertools.product(wrappers, repeat=depth):
+            for inner, has in (('preempt { x = 2; }', True), ('x = 3;', False)):
+                body = inner
+                for d_, wname in reversed(list(enumerate(nest))):
+                    body = wrappers[wname].replace('@', str(d_)) % body
+                expect = has or 'preempt-outer' in nest
+                src = 'empty !f(int x) { %s }\nempty @is_you() { try { !f(1); } undo { } }' % body
+                n += 1
+                try:
+                    env = Environment.empty()
+                    parse(SourceCode.from_string(src)).evaluate(env)
+                    decl, = env.funcs[Ident.defeat('f')].values()
+                    got = decl.body.preemptive
+                    lines = {u: svm.compile_hid(src, word_size=w, unchecked=u) for u in (False, True)}
+                except Exception as e:
+                    bad.append({'program': src, 'raises': repr(e)}); continue
+                prot = {u: any(l.strip() == b'j nonlocal_preempt' for l in lines[u]) for u in lines}
+                if got != expect:
+                    bad.append({'program': src, 'preemptive': got, 'documented': expect})
+                elif prot[False] != expect or prot[True]:
+                    bad.append({'program': src, 'return_protected': prot, 'documented': {'checked': expect, 'unchecked': False}})
+            if len(bad) > 6: break
+    det = {'formula': 'defeat function body.preemptive <=> a preempt block occurs anywhere inside; returns protected <=> preemptive and checked build', 'domain': n,
+           'functions': ['hidc.parser.grammar.ps_code_block', 'hidc.parser.grammar.ps_block', 'hidc.ast.blocks.LoopBlock.for_loop', 'hidc.ast.blocks.LoopBlock.while_loop',
+                         'hidc.ast.blocks.IfBlock.preemptive', 'hidc.ast.blocks.LoopBlock.preemptive', 'hidc.ast.blocks.CodeBlock.evaluate', 'hidc.ast.program.FuncDeclaration.evaluate',
+                         'hidc.codegen.generator.CodeGen.gen_func']}
+    if bad:
+        w0 = bad[0]
+        rep = {'reproduced': True, 'how': 'real parser/typechecker/generator on the witness program', 'observed': w0}
+        try:
+            res, vm = svm.run_hid(w0['program'].replace('try { !f(1); }', 'try { !f(1); !is_defeat(); }'), word_size=w)
+            rep['run'] = {'end': res, 'flags': vm.flags, 'documented': 'nonlocal_preempt error when the function is preemptive and safety is not provided'}
+        except Exception as e:
+            rep['run'] = repr(e)
+        det.update(model=bad[:4], replay=rep)
+    return [Result('time/preemptive-marker/structural', FAILED if bad else DISCHARGED, 'enum', time.time() - t0, (), det)]
+
+
 def tasks(tier):
-    out = []
+    out = [task(MOD, 'ob_preemptive_marker', ('C02', 'C05'), label='time/preemptive-marker', cost=3)]
     P = ('C01', 'C02', 'C03', 'C04', 'C08', 'C09', 'C10', 'C16')
     for w in ((2,) if tier == 'quick' else (2, 3, 4, 8)):
         for unchecked in ((False,) if tier == 'quick' else (False, True)):
